@@ -100,6 +100,27 @@ func registerHTTP(e *Engine) {
 		}
 		return Str{}
 	}
+	in["(*net/http.Request).Context"] = func(m *Machine, fr *frame, a []Value) Value { return Iface{} }
+	cloneReq := func(m *Machine, req *Value) *Value {
+		st2 := copyVal((*req).(Struct)).(Struct)
+		oldH, _ := (*structFieldByName(reqT(), st2, "Header")).(*MapV)
+		nh := newMap()
+		if oldH != nil {
+			m.flushPending(oldH)
+			for _, en := range oldH.entries {
+				if !en.deleted {
+					nh.addEntry(en.k, copyVal(*en.v))
+				}
+			}
+		}
+		*structFieldByName(reqT(), st2, "Header") = nh
+		cell := new(Value)
+		*cell = st2
+		m.http().urls[cell] = m.http().urls[req]
+		return cell
+	}
+	in["(*net/http.Request).Clone"] = func(m *Machine, fr *frame, a []Value) Value { return cloneReq(m, a[0].(*Value)) }
+	in["(*net/http.Request).WithContext"] = func(m *Machine, fr *frame, a []Value) Value { return cloneReq(m, a[0].(*Value)) }
 	in["(*net/http.Request).SetBasicAuth"] = func(m *Machine, fr *frame, a []Value) Value {
 		req := a[0].(*Value)
 		hdr := (*structFieldByName(reqT(), (*req).(Struct), "Header")).(*MapV)
@@ -254,7 +275,11 @@ func registerHTTP(e *Engine) {
 					}
 				}
 			}
-			f := m.prog.LookupMethod(cur.t, nil, "Unwrap")
+			sel := m.prog.MethodSets.MethodSet(cur.t).Lookup(nil, "Unwrap")
+			if sel == nil {
+				return false
+			}
+			f := m.prog.MethodValue(sel)
 			if f == nil {
 				return false
 			}
